@@ -96,7 +96,7 @@ Proof.
 Qed.
 Print Assumptions C14_removed_keys_refuted.
 
-From Sge Require Import Gen.kernels Proofs.GenKernels.
+From Sge Require Import Gen.kernels Proofs.GenOvmK.
 (* the threshold, the vote count with its verdict, and the expiry test of the model ARE the Go methods (KeyVault.MajorityCount for every
    vault size up to 1000, PublicKeysChangeProposal.DecideResult with its loop over the recorded votes, PublicKeysChangeProposal.IsExpired):
    generated from x/ovm/types on every run *)
